@@ -43,6 +43,7 @@ def gen_cases(rng, tier):
 HDR = 'ASAP2_VERSION 1 71 /begin PROJECT p "" /begin MODULE m ""\n'
 FTR = '\n/end MODULE /end PROJECT\n'
 CORPUS = [
+    HDR + '/begin IF_DATA X 5.0 /begin B 1e3 2.50 /end B /end IF_DATA' + FTR,
     HDR + '/begin MEASUREMENT a "" UBYTE NO_COMPU_METHOD 0 0 0 255\n/* one\n   two\n   three */\n/end MEASUREMENT' + FTR,
     HDR + '/begin MEASUREMENT a "" UBYTE NO_COMPU_METHOD 0 0 0 255 /end MEASUREMENT\n/* multi\nline */\n/begin MEASUREMENT b "" UBYTE NO_COMPU_METHOD 0 0 0 255 /end MEASUREMENT' + FTR,
     (HDR + '/begin A2ML\r\n  block "IF_DATA" long;\r\n/end A2ML\r\n' + FTR).replace('\n', '\r\n').replace('\r\r', '\r'),
@@ -79,7 +80,49 @@ def oracle(c, r, cases, res):
     return None
 
 
+def _gifd_floats(g, out):
+    """bit patterns of the Float / Double items of a generic IF_DATA dump"""
+    v = g[0]
+    if v in (b'Float', b'Double'):
+        out.append(g[2])
+    elif v in (b'Array', b'Sequence'):
+        for x in g[1:]:
+            _gifd_floats(x, out)
+    elif v in (b'Struct', b'Block'):
+        for x in g[3:]:
+            _gifd_floats(x, out)
+    elif v in (b'TaggedStruct', b'TaggedUnion'):
+        for e in g[1:]:
+            for t in e[1:]:
+                _gifd_floats(t[6], out)
+    return out
+
+
+def integral_float_in_uninterpreted_ifdata(node):
+    """does an IF_DATA that no A2ML definition describes hold a float whose value is an integer in the i32 range?"""
+    import struct
+    if not loadlib.is_node(node):
+        return False
+    if node[0] == b'IfData':
+        items, valid = node[2][0], node[2][1] if len(node[2]) > 1 else None
+        if items and not (valid and valid[0]):
+            for bits in _gifd_floats(items[0], []):
+                try:
+                    x = struct.unpack('<d', struct.pack('<Q', bits if isinstance(bits, int) else bits[0]))[0]
+                except Exception:
+                    continue
+                if x == x and abs(x) < 2 ** 31 and x == int(x):
+                    return True
+        return False
+    return any(integral_float_in_uninterpreted_ifdata(k) for grp in node[3] for k in grp)
+
+
 def classify_known(c, why, r):
+    # uninterpreted IF_DATA stores a number by the first type that takes it (i32, else f32, else f64); a float with an integral
+    # value is written without a fraction ("5.0" -> "5") and read back as an integer: the model differs once, the text is stable
+    if r.status == 'OK' and 'model differs' in why and 'the written text is the same' in why and integral_float_in_uninterpreted_ifdata(r.node):
+        return 'uninterpreted-ifdata-integral-float'
+
     # the finding: children with a position restriction are written in position order - the model read back lists them in
     # that order (differs once), the text is the same from the first save on.  Anything else in such a document is a violation.
     if r.status == 'OK' and loadlib.reordered_blocks(r.node) and 'model differs' in why and 'the written text is the same' in why:
